@@ -2,6 +2,7 @@
 C08 — block topology, branch-cut indices and global index map.
 Model: HypnoModel/Model/Topology.lean and HypnoModel/Model/Tiling.lean.
 -/
+import HypnoModel.Props.C08XInd
 import HypnoModel.Model.Topology
 import HypnoModel.Model.Tiling
 import HypnoModel.Gen.Pipeline
